@@ -101,6 +101,8 @@ structure Sto where
   monFresh : Bool := false    -- ghost: … and so had the (registered) monitor reader
   ncommit : Nat := 0          -- ghost: frames committed to `sink.in` since this run of the storage was started
   dropped : Bool := false     -- ghost: a frame of this run was not committed because the channel refused writes
+  disturbed : Bool := false   -- ghost: this run was aborted, hit a storage failure, a failed start or a re-configuration
+  drained : Bool := false     -- ghost: the sink ended this run normally (an empty read in its final flush, storage still Running)
   appended : Nat := 0         -- ghost: stream position up to which the frames of `sink.in` have been appended in this run
   appendsAfterFailure : Nat := 0   -- ghost: appends that reached the driver after a failed one
 deriving Repr, Inhabited
@@ -350,7 +352,7 @@ def snkActs (s : Nat) : List (Act Stream) := [
   { name := "snk.map.empty.main", guard := fun st => st.snk.pc = .afterMap && st.sto.state = .running && decide (st.snk.len = 0) && !st.snk.flush,
     upd := fun st => setSnkPc st .sleep },
   { name := "snk.map.empty.flush", guard := fun st => st.snk.pc = .afterMap && st.sto.state = .running && decide (st.snk.len = 0) && st.snk.flush,
-    upd := fun st => setSnkPc st .stoStop },
+    upd := fun st => { st with sto := { st.sto with drained := true }, snk := { st.snk with pc := .stoStop } } },
   { name := "snk.append.fault", guard := fun st => st.snk.pc = .append && stoFault st,
     upd := fun st => { st with sto := { st.sto with nappend := st.sto.nappend + 1, failed := true, state := .armed,
                                                       appendsAfterFailure := st.sto.appendsAfterFailure + (if st.sto.failed then 1 else 0) },
@@ -370,7 +372,7 @@ def snkActs (s : Nat) : List (Act Stream) := [
     out := fun _ => [s!"DRV {stoDev s} stop -> armed"] },
   -- Error: signal the source, refuse writes, release the region, storage_stop (no driver call: not Running)
   { name := "snk.error", guard := fun st => st.snk.pc = .error,
-    upd := fun st => { st with srcStopping := true, snk := { st.snk with pc := .errAccLock } } },
+    upd := fun st => { st with srcStopping := true, sto := { st.sto with disturbed := true }, snk := { st.snk with pc := .errAccLock } } },
   { name := "snk.err.acc", guard := fun st => st.snk.pc = .errAccLock && sinkLockFree st,
     upd := fun st => { st with sinkCh := (chanOp st.sinkCh (.accept false)).1, snk := { st.snk with pc := .errAccNotify } } },
   { name := "snk.err.acc.notify", guard := fun st => st.snk.pc = .errAccNotify, upd := fun st => setSnkPc (notifySink st) .errAfterAcc },
